@@ -155,7 +155,16 @@ func TestVerifC02(t *testing.T) {
 				if !p.Mine(idx) {
 					continue
 				}
-				zzvC02Ready(res, base, zzvC02Case{mode, "ready " + wk.name, "", anchor}, mode, end, end.Add(time.Duration(-wk.d)*zzvDay).Add(12*time.Hour))
+				start := end.Add(time.Duration(-wk.d) * zzvDay).Add(12 * time.Hour)
+				zzvC02Ready(res, base, zzvC02Case{mode, "ready " + wk.name, "", anchor}, mode, end, start)
+				// the same instants expressed in other time zones (RunConfig.StartTime is caller-supplied):
+				// the calendar day that counts is the UTC one
+				for _, z := range []struct {
+					n string
+					h int
+				}{{"+14h", 14}, {"-12h", -12}} {
+					zzvC02Ready(res, base, zzvC02Case{mode, "ready " + wk.name + " zone" + z.n, "", anchor}, mode, end, start.In(time.FixedZone(z.n, z.h*3600)))
+				}
 			}
 		}
 		if p.Expired() {
@@ -302,7 +311,7 @@ func zzvC02Ready(res *vrep.Result, base string, cs zzvC02Case, mode string, week
 			continue
 		}
 		posts := len(vhttp.Log)
-		today := start.Format("2006-01-02")
+		today := start.UTC().Format("2006-01-02")
 		notFuture := wk <= today
 		dateOK := m.date.IsZero() || m.date.Before(week)
 		switch {
